@@ -186,6 +186,13 @@ def check_terminate(c, f):
     c.need(len(dead_tests) >= 5, 'terminate: expected >= 5 liveness checks, found %d' % len(dead_tests))
     for r in returns(f):
         v = r.ast.value
+        # value must agree with the nearest liveness verdict
+        near = [(t, e) for t in dead_tests for e in ('true', 'false') if r in guard_region(g, t, e, skip_labels=())]
+        if near:
+            t, e = max(near, key=lambda te: te[0].id)
+            dead = (e == 'true') == norm(t.ast).startswith('not')
+            c.check(is_const(v, dead), f, r.ast, 'the value returned agrees with the liveness check just made (%s -> %s)' % ('dead' if dead else 'still alive', dead),
+                    witness='returns %s' % norm(v), tag='verdict@%s' % len(c.obs))
         if is_const(v, True):
             ok = False
             for t in dead_tests:
@@ -252,6 +259,7 @@ MUTANTS = [
     ('read-cached-fd', 'spawnbase', "            s = os.read(self.child_fd, size)", "            s = os.read(self._fd_cache, size)", 'D2'),
     ('kill-unguarded', 'pty_spawn', "        if self.isalive():\n            os.kill(self.pid, sig)", "        os.kill(self.pid, sig)", 'D3'),
     ('terminate-true-unchecked', 'pty_spawn', "            self.kill(signal.SIGINT)\n            time.sleep(self.delayafterterminate)\n            if not self.isalive():\n                return True", "            self.kill(signal.SIGINT)\n            time.sleep(self.delayafterterminate)\n            if not force:\n                return True", 'D4'),
+    ('terminate-dead-false', 'pty_spawn', "        if not self.isalive():\n            return True\n        try:", "        if not self.isalive():\n            return False\n        try:", 'D4'),
     ('terminate-kill-always', 'pty_spawn', "            if force:\n                self.kill(signal.SIGKILL)", "            if True:\n                self.kill(signal.SIGKILL)", 'D4'),
     ('terminate-skip-int', 'pty_spawn', "            self.kill(signal.SIGINT)\n            time.sleep(self.delayafterterminate)", "            time.sleep(self.delayafterterminate)", 'D4'),
     ('terminate-kill-waits', 'pty_spawn', "                self.kill(signal.SIGKILL)\n                time.sleep(self.delayafterterminate)\n                if not self.isalive():\n                    return True\n                else:\n                    return False", "                self.kill(signal.SIGKILL)\n                self.ptyproc.wait()\n                return True", 'D4'),
